@@ -1,5 +1,6 @@
 import CoapVerif.Lemmas.Replay
 import CoapVerif.Lemmas.ReplayEndp
+import CoapVerif.Lemmas.ReplayReqNonce
 import CoapVerif.Spec.Replay
 /-
 C15 — OSCORE never accepts a replay or reuses a nonce; forgeries leave no trace.
@@ -388,14 +389,39 @@ theorem response_nonce_is_peers (cfg : Cfg) (f start : Nat) (ops : List NOp) (hs
   obtain ⟨U, g⟩ := nfinal_inv cfg ops _ [] 0 (ninv_start f start hs) (by omega)
   exact sent_none_ofReq ⟨U, _, g, by omega⟩ op n h
 
-/- NOT proved (kept as the target; what is proved of it: the `own` half above, for all histories, and the step facts):
-  theorem nonce_never_reused (cfg) (f start) (ops : List NOp) (hs) (hl) (hb : cfg.b12 = false)
-      (hc : ∀ op ∈ ops, ∀ f', op ≠ .crash f') : (nonces (nrun cfg (Endp.start f start) ops)).Nodup
-The `ofReq` half needs the invariant "the associations that can protect a response hold pairwise different request
-nonces, each recorded in the replay window and not used yet" along `Good`.  It is FALSE without the two hypotheses:
-after a crash the replay window is fresh (with B.1.2 off the peer's old requests are accepted again — RFC 8613 7.5.1),
-and with B.1.2 on a request that is decrypted but then dropped for a wrong Echo value leaves its association behind
-(`w1.3 r1 e2.4 w1.3 r1`), see design/C15.md. -/
+/-- **A response that re-uses the nonce of the request it answers does so at most once per accepted request**: along
+every sender-side history of an endpoint — requests of the peer arrive (authentic or forged, any token, any Partial IV,
+with / without / with a wrong Echo value, Observe or not, replayed, the same datagram under another token), the endpoint
+sends requests of its own (tokens in the same table), responses of every kind for ANY token (also for tokens it was
+never given a request for, also twice), Echo challenges — with Appendix B.1.2 on or off, any window, any `ssn_freq` and
+start value, as long as the process is not restarted, the request nonces handed to the AEAD (`Nonce.ofReq`, always with
+the Sender Key) are pairwise distinct.  No hypothesis on the application.  Needs the R15c fix (a request caught by the
+Appendix B.1.2 trap leaves no association): invariant `RInv` — every association that can protect a response holds
+the nonce of a request whose Partial IV is recorded in the replay window and that no response has used yet. -/
+theorem request_nonce_used_at_most_once (cfg : Cfg) (f start : Nat) (ops : List NOp)
+    (hc : ∀ op ∈ ops, ∀ f', op ≠ .crash f') : (ofReqsOf (nonces (nrun cfg (Endp.start f start) ops))).Nodup :=
+  (nrun_ofReqs cfg ops (Endp.start f start) [] 0 [] (rinv_start 0) hc).2
+
+/-- the same for every life of the endpoint: after any history `ops1` (restarts included) and a restart, the request
+nonces used until the next restart are pairwise distinct -/
+theorem request_nonce_used_at_most_once_per_life (cfg : Cfg) (f start : Nat) (ops1 : List NOp) (f' : Nat) (ops2 : List NOp)
+    (hc : ∀ op ∈ ops2, ∀ f'', op ≠ .crash f'') :
+    (ofReqsOf (nonces (nrun cfg (nfinal cfg (Endp.start f start) (ops1 ++ [.crash f'])) ops2))).Nodup := by
+  rw [nfinal_append]
+  exact (nrun_ofReqs cfg ops2 _ [] 0 [] (rinv_start 0) hc).2
+
+/-- **No (Sender Key, nonce) pair is used twice** in a life of the endpoint: the own nonces (`own_nonce_never_reused`)
+and the request nonces (`request_nonce_used_at_most_once`) together — every nonce handed to the AEAD along a history
+without a restart is different from every other one. -/
+theorem nonce_never_reused (cfg : Cfg) (f start : Nat) (ops : List NOp) (hs : start ≤ SEQ_MAX + 2 ^ 32)
+    (hl : ops.length < 2 ^ 63) (hc : ∀ op ∈ ops, ∀ f', op ≠ .crash f') :
+    (nonces (nrun cfg (Endp.start f start) ops)).Nodup :=
+  nodup_of_halves _ (own_nonce_never_reused cfg f start ops hs hl) (request_nonce_used_at_most_once cfg f start ops hc)
+
+/- Why "without a restart": after a crash the replay window is fresh; with Appendix B.1.2 off the peer's old request is
+accepted again and answered under the same nonce (RFC 8613 7.5.1 — a deployment that restarts needs B.1.2 or a persisted
+window; witness below).  With B.1.2 on, `accept_at_most_once_across_restarts` (under `EchoFresh`) gives distinct accepted
+Partial IVs over all lives; lifting `request_nonce_used_at_most_once` over restarts along it is not done. -/
 
 /-! ### Non-vacuity: concrete histories (the minimal witnesses of the defects fixed in libcoap, see design/C15.md) -/
 
@@ -512,5 +538,27 @@ example : ownsOf (nonces (nrun ⟨32, true⟩ (Endp.start 3 0) [.reqIn 1 ⟨true
   decide
 example : (nstep ⟨32, false⟩ (nfinal ⟨32, false⟩ (Endp.start 3 0) [.reqIn 1 ⟨true, 5, .none⟩ false]) (.sendRsp 1 false false)).2
     = .sent none (.ofReq 5) := by decide
+
+-- request nonces: why "no restart" is needed (Appendix B.1.2 off: the old request is accepted again in the new life)
+example : ofReqsOf (nonces (nrun ⟨32, false⟩ (Endp.start 1 0) [.reqIn 1 ⟨true, 5, .none⟩ false, .sendRsp 1 false false, .crash 1,
+    .reqIn 1 ⟨true, 5, .none⟩ false, .sendRsp 1 false false])) = [5, 5] := by decide
+-- the R15c defect history: request 5 (token 1) with a wrong Echo value is dropped by the Appendix B.1.2 trap, the Echo
+-- exchange completes with 4, the datagram with Partial IV 5 arrives under token 3 and is answered, then a response goes
+-- out for token 1: `err` (before the fix the association of the dropped request was still there: `ofReq 5` twice);
+-- two dropped requests with one Partial IV under two tokens: nothing to answer them with
+example : nrun ⟨32, true⟩ (Endp.start 1 0) [.reqIn 1 ⟨true, 5, .bad⟩ false, .reqIn 2 ⟨true, 4, .good⟩ false, .sendRsp 2 false false,
+    .reqIn 3 ⟨true, 5, .none⟩ false, .sendRsp 3 false false, .sendRsp 1 false false] =
+    [.verdict .drop, .verdict .acc, .sent none (.ofReq 4), .verdict .acc, .sent none (.ofReq 5), .err] := by decide
+example : nrun ⟨32, true⟩ (Endp.start 1 0) [.reqIn 1 ⟨true, 5, .bad⟩ false, .reqIn 2 ⟨true, 5, .bad⟩ false, .sendRsp 1 false false,
+    .sendRsp 2 false false] = [.verdict .drop, .verdict .drop, .err, .err] := by decide
+-- the hypothesis of request_nonce_used_at_most_once / nonce_never_reused on a non-trivial history
+example : (∀ op ∈ [NOp.reqIn 1 ⟨true, 5, .none⟩ false, .reqIn 2 ⟨true, 7, .none⟩ false, .sendRsp 2 false false, .sendRsp 1 false false],
+    ∀ f', op ≠ .crash f') ∧
+    nonces (nrun ⟨32, false⟩ (Endp.start 1 0) [.reqIn 1 ⟨true, 5, .none⟩ false, .reqIn 2 ⟨true, 7, .none⟩ false, .sendRsp 2 false false,
+      .sendRsp 1 false false]) = [.ofReq 7, .ofReq 5] := by
+  refine ⟨?_, by decide⟩
+  intro op h f'
+  simp only [List.mem_cons, List.not_mem_nil, or_false] at h
+  rcases h with rfl | rfl | rfl | rfl <;> simp
 
 end Coap.C15
